@@ -1595,6 +1595,12 @@ class Vector : public vec::VectorWithInplaceStorage<T, Alloc, SizeType, GrowingP
     return *this;
   }
 
+  // The copy and move assignment operators above hide the one of the base class
+  Vector &operator=(std::initializer_list<T> list) {
+    this->assign(list.begin(), list.end());
+    return *this;
+  }
+
   // Define swap here instead of VectorImpl as noexcept swap is possible only for same inplace capacity
   void swap(Vector &o) noexcept(N == 0 || vec::is_swap_noexcept<T>::value) { this->swap_impl(o); }
 
